@@ -1127,6 +1127,19 @@ impl Transaction {
             }
 
             //
+            // the signature is checked against the key of the first input only, so
+            // every other value-carrying input must belong to that same key. (the
+            // Bound slips of an NFT carry identifiers, not owner keys.)
+            //
+            let signer: SaitoPublicKey = self.from[0].public_key;
+            if self.from.iter().any(|slip| {
+                slip.amount > 0 && slip.slip_type != SlipType::Bound && slip.public_key != signer
+            }) {
+                error!("ERROR 757294: transaction spends an input its signer does not own");
+                return false;
+            }
+
+            //
             // validate routing path sigs
             //
             // it strengthens censorship-resistance and anti-MEV properties in the network
